@@ -116,23 +116,17 @@ public:
 
     IndexType getIndexFromBoxPos(const std::array<long int,Dim>& inBoxPos) const{
         IndexType index = 0x0LL;
-        IndexType mask = 0x1LL;
 
-        bool shouldContinue = false;
-
-        std::array<IndexType,Dim> mcoord;
+        long int remainingBits = 0;
         for(long int idxDim = 0 ; idxDim < Dim ; ++idxDim){
-            mcoord[idxDim] = (inBoxPos[idxDim] << (Dim - idxDim - 1));
-            shouldContinue |= ((mask << (Dim - idxDim - 1)) <= mcoord[idxDim]);
+            remainingBits |= inBoxPos[idxDim];
         }
 
-        while(shouldContinue){
-            shouldContinue = false;
+        // Interleave one bit of each coordinate per iteration (dim 0 is the most significant),
+        // stop when no coordinate has a bit left, so nothing is shifted past the index width
+        for(long int idxBit = 0 ; (remainingBits >> idxBit) != 0 ; ++idxBit){
             for(long int idxDim = Dim-1 ; idxDim >= 0 ; --idxDim){
-                index |= (mcoord[idxDim] & mask);
-                mask <<= 1;
-                mcoord[idxDim] <<= (Dim-1);
-                shouldContinue |= ((mask << (Dim - idxDim - 1)) <= mcoord[idxDim]);
+                index |= (((inBoxPos[idxDim] >> idxBit) & IndexType(1)) << (idxBit*Dim + (Dim - idxDim - 1)));
             }
         }
 
